@@ -175,6 +175,7 @@ class Interp:
         s = lab.sampler
         # (a) self-consistent under its own flag: checked by self.check()
         r = Result()
+        Result._latest = self.res
         so.check_estimators(s, r, 'resumed', self.split)
         for v in r.violations:
             self.res.viol('resumed-inconsistent', v['clause'], v['detail'])
